@@ -13,6 +13,13 @@ from . import common
 
 ID = 'C19'
 LEVEL = 'exploration'
+# scenario variants and fault kinds mixed into the seeded part (reported in
+# the evidence; DESIGN 14.6 says where each came from)
+VARIANTS = [
+    "error objects with empty-string fields",
+    "status codes without a registered reason phrase",
+    "odd bodies on success codes"
+]
 RUNS = {'quick': 30000, 'thorough': 1500000}
 WALL_CAP = {'quick': 200, 'thorough': 3300}
 
